@@ -79,3 +79,20 @@ __published:
   void __releasebuffer__(PyObject *self, Py_buffer *view) const;
   void __releasebuffer__(Py_buffer *view, int extra);
 };
+
+// Template instantiations keyed by typedefs that are equal in structure but distinct objects.
+template<class P, class Q> class Tm2 {
+__published:
+  P getp() const;
+  Q getq() const;
+};
+class TdA { public: typedef int value_type; typedef const char *name_type; };
+typedef double tm2_other_type;
+class TdB { public: typedef int value_type; typedef const char *name_type; };
+class TdC { public: typedef int value_type; };
+typedef Tm2<tm2_other_type, int> Tm2K3;
+typedef Tm2<TdA::value_type, int> Tm2K1;
+typedef Tm2<TdB::value_type, int> Tm2Kq;
+typedef Tm2<TdC::value_type, TdA::value_type> Tm2Kr;
+typedef Tm2<TdB::name_type, TdA::name_type> Tm2Kn;
+typedef Tm2<TdA::name_type, TdB::name_type> Tm2Km;
